@@ -93,7 +93,55 @@ def check_c01_c05(prop, tier, seed):
                 b.case(desc, nontrivial=ok_any)
     if inplace:
         check_c05_mutated_current_value(b, rng, tier)
+        check_c05_integer_array_setitem(b, rng, tier)
     return b
+
+
+def check_c05_integer_array_setitem(b, rng, tier):
+    """x[int_array] = y with repeated and distinct indices, for every integer index dtype, directly and through a view, on small tensors and
+    on tensors large enough for float16/float32 to run out of exact integers: the written elements pass no gradient to the old contents,
+    of repeated writes only the last one passes gradient to its value, every other written value gets its full gradient."""
+    cases = []
+    for idt in (np.int64, np.int32, np.int16, np.uint8, np.intp, np.uint64):
+        cases.append(("small-repeated", (6,), np.float64, np.array([0, 0, 3, 5, 3], dtype=idt)))
+        cases.append(("small-distinct", (6,), np.float64, np.array([4, 1, 0], dtype=idt)))
+    for fdt, n in ((np.float16, 4200), (np.float32, 4200), (np.float16, 70000)):
+        cases.append(("large-distinct-neighbours", (n,), fdt, np.array([2048, 2049, 4095, 4097, 10], dtype=np.int64)))
+        cases.append(("large-repeated", (n,), fdt, np.array([2049, 2049, 4097, 10, 4097], dtype=np.int64)))
+    cases.append(("2d-large", (64, 70), np.float16, (np.array([40, 40, 63]), np.array([0, 1, 69]))))
+    for name, shape, fdt, idx in cases:
+        for through_view in (False, True):
+            xv = rng.uniform(1, 2, size=shape).astype(fdt)
+            nidx = len(idx[0]) if isinstance(idx, tuple) else len(idx)
+            yv = rng.uniform(1, 2, size=(nidx,)).astype(fdt)
+            x0 = mg.tensor(xv.copy())
+            y = mg.tensor(yv.copy())
+            x = x0 * 1.0
+            tgt = x[...] if through_view else x
+            desc = dict(setitem=name, x_dtype=np.dtype(fdt).name, index_dtype=str(idx[0].dtype if isinstance(idx, tuple) else idx.dtype), through_view=through_view)
+            b.count("integer-array setitem")
+            try:
+                tgt[idx] = y
+                (x * 1.0).sum().backward()
+            except Exception as e:
+                b.fail("C05.bounded.raises", desc, f"{type(e).__name__}: {e}")
+                continue
+            ref = xv.copy()
+            ref[idx] = yv
+            # expected gradients: which y-entry survives at each written position (NumPy: the last write wins)
+            flat = np.ravel_multi_index(idx, shape) if isinstance(idx, tuple) else np.asarray(idx, dtype=np.int64)
+            last = {}
+            for k, pos in enumerate(flat.tolist()):
+                last[pos] = k
+            ey = np.zeros(nidx)
+            for pos, k in last.items():
+                ey[k] = 1.0
+            ex = np.ones(int(np.prod(shape)))
+            ex[list(last)] = 0.0
+            ok = np.array_equal(x.data, ref) and y.grad is not None and np.array_equal(np.asarray(y.grad, dtype=float), ey) and x0.grad is not None and np.array_equal(np.asarray(x0.grad, dtype=float).ravel(), ex)
+            if not ok:
+                b.fail("C05.bounded.setitem_integer_array", desc, f"y.grad = {None if y.grad is None else np.asarray(y.grad, dtype=float).tolist()}, expected {ey.tolist()}; old contents' gradient correct: {x0.grad is not None and bool(np.array_equal(np.asarray(x0.grad, dtype=float).ravel(), ex))}; values equal NumPy: {bool(np.array_equal(x.data, ref))}")
+            b.case(desc)
 
 
 def check_c05_mutated_current_value(b, rng, tier):
@@ -526,6 +574,47 @@ def check_c06(tier, seed):
                     elif vg.size and not np.shares_memory(vg, base.grad):
                         b.fail("C06.bounded.view_grad_not_shared", desc, "view.grad does not share memory with base.grad")
                     b.case(desc)
+    # owners whose memory is neither C- nor Fortran-ordered (an elementwise result of an axis-permuted >= 3-d tensor keeps that K-order)
+    # with views that exist only because of that layout; first contribution arriving as a fresh C-ordered array or in the owner's layout
+    perms = [(1, 0, 2), (2, 0, 1), (0, 2, 1), (1, 2, 0)]
+    for perm in perms:
+        for contrib in ("fresh-C", "own-layout", "matmul", "seed-C"):
+            for vname, vf in (("T-perm.reshape", lambda t, pm: (mg.transpose(t, np.argsort(pm)) if isinstance(t, Tensor) else np.transpose(t, np.argsort(pm))).reshape(-1)),
+                              ("T-perm.reshape2", lambda t, pm: (mg.transpose(t, np.argsort(pm)) if isinstance(t, Tensor) else np.transpose(t, np.argsort(pm))).reshape(t.shape[int(np.argsort(pm)[0])], -1)),
+                              ("[1:]", lambda t, pm: t[1:]), ("[...,::-1]", lambda t, pm: t[..., ::-1])):
+                x = mg.tensor(rng.uniform(1, 2, size=(2, 3, 4)))
+                base = mg.exp(mg.transpose(x, perm) * 0.1)  # owns K-ordered memory
+                if base.data.flags.c_contiguous or base.data.flags.f_contiguous:
+                    continue
+                try:
+                    v = vf(base, perm)
+                except Exception:
+                    continue
+                if not np.shares_memory(v.data, base.data):
+                    continue
+                desc = dict(owner="K-ordered 3-d", perm=list(perm), contribution=contrib, view=vname)
+                try:
+                    if contrib == "fresh-C":
+                        (base * np.ascontiguousarray(rng.uniform(1, 2, size=base.shape))).sum().backward()
+                    elif contrib == "own-layout":
+                        (base * 2.0).sum().backward()
+                    elif contrib == "matmul":
+                        mg.matmul(base, rng.uniform(1, 2, size=(base.shape[-1], 2))).sum().backward()
+                    else:
+                        base.backward(np.ascontiguousarray(rng.uniform(1, 2, size=base.shape)))
+                except Exception as e:
+                    b.fail("C06.bounded.raises", desc, f"{type(e).__name__}: {e}")
+                    continue
+                b.count("K-ordered owner: view.grad is the view of base.grad")
+                bg, vg = base.grad, v.grad
+                ref = vf(bg, perm) if bg is not None else None
+                if bg is None or vg is None:
+                    b.fail("C06.bounded.view_grad_unavailable", desc, "base.grad or view.grad missing")
+                elif vg.shape != ref.shape or not np.array_equal(vg, ref):
+                    b.fail("C06.bounded.view_grad_value", desc, "view.grad differs from the view of base.grad")
+                elif not np.shares_memory(vg, bg):
+                    b.fail("C06.bounded.view_grad_not_shared", desc, f"view.grad does not share memory with base.grad (data strides {base.data.strides}, grad strides {bg.strides})")
+                b.case(desc)
     # views that sit in the back-propagated graph but receive no gradient of their own: every consumer of the view is a detached
     # (constant=True) op, the base gets its gradient through another path; the view's gradient must still follow the base's
     for order in ("C", "F"):
